@@ -60,7 +60,7 @@ def _path_from_partial_string(inp, pos=None):
 
     end = xt.RE_STRING_START.sub("", quote)
     _string = string
-    if not _string.endswith(end):
+    if endix is None or not _string.endswith(end):
         _string = _string + end
     try:
         val = ast.literal_eval(_string)
